@@ -124,7 +124,8 @@ EntryMutations(cfg, p) ==
      ELSE {[why |-> "name on a trait feature", cfg |-> WithEntry(cfg, p, AddParam(e, P("name", "str", "nn1")))],
            [why |-> "vis on a trait feature", cfg |-> WithEntry(cfg, p, AddParam(e, P("vis", "str", "pub")))]})
   \cup (IF "struct_name" \in ParamsOf(f) THEN
-     {[why |-> "struct_name = integer", cfg |-> WithEntry(cfg, p, SetParam(e, "struct_name", P("struct_name", "int", "1")))]}
+     {[why |-> "struct_name = integer", cfg |-> WithEntry(cfg, p, SetParam(e, "struct_name", P("struct_name", "int", "1")))],
+      [why |-> "bare struct_name", cfg |-> WithEntry(cfg, p, SetParam(e, "struct_name", P("struct_name", "none", "")))]}
      ELSE {[why |-> "struct_name on a feature without struct", cfg |-> WithEntry(cfg, p, AddParam(e, P("struct_name", "str", "Sn1")))]})
 
 GlobalMutations(cfg, gapless) ==
@@ -148,7 +149,9 @@ GlobalMutations(cfg, gapless) ==
        cfg |-> WithEntry(cfg, CHOOSE p \in Entries(cfg) : EntryAt(cfg, p).f = "iter",
                          SetParam(EntryOf(cfg, "iter"), "mode", P("mode", "str", "range")))]} ELSE {})
   \cup {[why |-> "variant attribute: " \o frm, cfg |-> [cfg EXCEPT !.varattr = [at |-> 1, form |-> frm]]] :
-          frm \in {"bare", "nv", "empty", "rename_list", "rename_int", "rename_path", "Rename", "two", "unknown"}}
+          frm \in {"bare", "nv", "empty", "rename_list", "rename_int", "rename_path", "Rename", "two", "unknown",
+                   \* a valid rename followed by a second, invalid attribute on the same variant
+                   "after_rename_unknown", "after_rename_bare", "after_rename_int", "before_rename_unknown"}}
 
 Mutations(cfg, gapless) == GlobalMutations(cfg, gapless) \cup UNION {EntryMutations(cfg, p) : p \in Entries(cfg)}
 =============================================================================
